@@ -225,19 +225,38 @@ func (p *Program) captureAnalysis(pk *packages.Package, fd *ast.FuncDecl) {
 		return
 	}
 	type asg struct {
-		inLit bool
+		inLit *ast.FuncLit // innermost literal containing the assignment (nil: the function body itself)
 		stmt  *ast.AssignStmt
 		rhs   ast.Expr
 	}
+	// innermost literal containing a position
+	var lits []*ast.FuncLit
+	ast.Inspect(fd.Body, func(n ast.Node) bool {
+		if l, ok := n.(*ast.FuncLit); ok {
+			lits = append(lits, l)
+		}
+		return true
+	})
+	innermost := func(pos token.Pos) *ast.FuncLit {
+		var best *ast.FuncLit
+		for _, l := range lits {
+			if l.Pos() <= pos && pos < l.End() {
+				if best == nil || (l.Pos() >= best.Pos() && l.End() <= best.End()) {
+					best = l
+				}
+			}
+		}
+		return best
+	}
 	assigns := map[*types.Var][]asg{}
 	addrTaken := map[*types.Var]bool{}
-	var walk func(n ast.Node, inLit bool)
-	walk = func(n ast.Node, inLit bool) {
+	var walk func(n ast.Node, inLit *ast.FuncLit)
+	walk = func(n ast.Node, inLit *ast.FuncLit) {
 		ast.Inspect(n, func(m ast.Node) bool {
 			switch x := m.(type) {
 			case *ast.FuncLit:
 				if m != n {
-					walk(x.Body, true)
+					walk(x.Body, x)
 					return false
 				}
 			case *ast.AssignStmt:
@@ -293,7 +312,7 @@ func (p *Program) captureAnalysis(pk *packages.Package, fd *ast.FuncDecl) {
 			return true
 		})
 	}
-	walk(fd.Body, false)
+	walk(fd.Body, nil)
 	for v := range captured {
 		as := assigns[v]
 		if addrTaken[v] {
@@ -303,7 +322,7 @@ func (p *Program) captureAnalysis(pk *packages.Package, fd *ast.FuncDecl) {
 		if len(as) == 0 {
 			continue
 		}
-		if len(as) == 1 && !as[0].inLit && as[0].stmt != nil && len(as[0].stmt.Lhs) == 1 && declaredByVar(info, fd, v) {
+		if len(as) == 1 && as[0].inLit == innermost(v.Pos()) && as[0].stmt != nil && len(as[0].stmt.Lhs) == 1 && declaredByVar(info, fd, v) {
 			if lit, ok := as[0].rhs.(*ast.FuncLit); ok {
 				p.LateBound[v] = lit
 			}
@@ -369,7 +388,11 @@ func (p *Program) literalContexts(pk *packages.Package, fd *ast.FuncDecl) {
 				}
 			}
 		case *ast.CallExpr:
-			if ft, ok := info.TypeOf(x.Fun).(*types.Signature); ok {
+			var ft *types.Signature
+			if tt := info.TypeOf(x.Fun); tt != nil {
+				ft, _ = tt.Underlying().(*types.Signature)
+			}
+			if ft != nil {
 				for i, a := range x.Args {
 					if lit, ok := a.(*ast.FuncLit); ok {
 						pi := i
